@@ -1,1 +1,421 @@
-//! C17 harnesses (see /verif/tools/HARNESS_GUIDE.md).
+//! C17 — date-time, duration and time-of-day arithmetic obeys its inverse laws (the part reachable by Kani).
+//!
+//! Inside (this module):
+//!   * `Time` constructors report their components through the `Timelike` getters (which go through
+//!     `Time::as_cr` -> `chrono::NaiveTime`), round trip Time <-> NaiveTime, `Time ± TimeDelta` for month-free
+//!     durations is exact nanosecond arithmetic;
+//!   * `TimeDelta` group laws (+, -, unary -, * i32) with chrono::Duration's (secs, nanos) normalisation
+//!     executed for real.
+//! Outside (see props/c17.py): everything on `DateTime<U>` with valid operands — every operator in
+//! tea-time/src/impls/impl_ops.rs converts through `chrono::DateTime<Utc>` (`as_cr`, `+ Duration`, `.into()`),
+//! whose calendar conversion gave no solver answer in 40–55 min (DESIGN 1.1).
+use chrono::{Duration, NaiveTime};
+use tea_time::{Time, TimeDelta, Timelike};
+
+const NS: i64 = 1_000_000_000;
+const DAY_NS: i64 = 86_400 * NS;
+
+// ---------------------------------------------------------------------------------------------
+// symbolic operands
+// ---------------------------------------------------------------------------------------------
+
+/// chrono::Duration with |secs| <= lim and every sub-second part (0 <= nanos < 10^9 is chrono's
+/// representation invariant; `Duration::new` performs range checks only, no division).
+fn any_duration(lim: i64) -> Duration {
+    let secs: i64 = kani::any();
+    let nanos: u32 = kani::any();
+    kani::assume(secs >= -lim && secs <= lim);
+    kani::assume(nanos < 1_000_000_000);
+    match Duration::new(secs, nanos) {
+        Some(d) => d,
+        None => unreachable!(),
+    }
+}
+
+/// valid (non-NaT) TimeDelta: |months| <= 1200, |secs| <= lim
+fn any_delta(lim: i64) -> TimeDelta {
+    let months: i32 = kani::any();
+    kani::assume(months >= -1200 && months <= 1200);
+    TimeDelta { months, inner: any_duration(lim) }
+}
+
+/// total nanoseconds of a duration as a mathematical integer (needs |secs| < 2^33 to fit i64)
+fn dur_ns(secs: i64, nanos: u32) -> i64 {
+    secs * NS + nanos as i64
+}
+
+/// time of day inside 0 .. 86400 s, every nanosecond
+fn any_time_of_day() -> Time {
+    let v: i64 = kani::any();
+    kani::assume(v >= 0 && v < DAY_NS);
+    Time(v)
+}
+
+// bounds of the duration laws: chrono's Duration holds |secs| <= i64::MAX/1000 (about 2^53); three operands
+// of 2^40 (quick) / 2^50 (thorough) never reach chrono's legitimate overflow panic.
+#[cfg(not(feature = "thorough"))]
+const TD_LIM: i64 = 1 << 40;
+#[cfg(feature = "thorough")]
+const TD_LIM: i64 = 1 << 50;
+
+// ---------------------------------------------------------------------------------------------
+// Time: constructors report their components
+// ---------------------------------------------------------------------------------------------
+
+fn any_hms() -> (i64, i64, i64) {
+    let h: i64 = kani::any();
+    let m: i64 = kani::any();
+    let s: i64 = kani::any();
+    kani::assume(h >= 0 && h < 24);
+    kani::assume(m >= 0 && m < 60);
+    kani::assume(s >= 0 && s < 60);
+    (h, m, s)
+}
+
+fn check_components(t: Time, h: i64, m: i64, s: i64, nano: i64) {
+    assert!(t.is_not_nat(), "constructed time is valid");
+    assert!(t.hour() as i64 == h, "hour() reports the hour component");
+    assert!(t.minute() as i64 == m, "minute() reports the minute component");
+    assert!(t.second() as i64 == s, "second() reports the second component");
+    assert!(t.nanosecond() as i64 == nano, "nanosecond() reports the sub-second component");
+}
+
+/// from_hms(h, m, s), all 86400 combinations
+#[kani::proof]
+#[kani::stub(std::fmt::format, crate::util::fmt_stub)]
+pub fn c17_time_from_hms_components() {
+    let (h, m, s) = any_hms();
+    kani::cover!(h == 23 && m == 59 && s == 59, "last second of the day");
+    kani::cover!(h == 0 && m == 0 && s == 0, "midnight");
+    check_components(Time::from_hms(h, m, s), h, m, s, 0);
+}
+
+/// from_hms_milli(h, m, s, 0..1000)
+#[kani::proof]
+#[kani::stub(std::fmt::format, crate::util::fmt_stub)]
+pub fn c17_time_from_hms_milli_components() {
+    let (h, m, s) = any_hms();
+    let ms: i64 = kani::any();
+    kani::assume(ms >= 0 && ms < 1_000);
+    kani::cover!(h == 23 && m == 59 && s == 59 && ms == 999, "last millisecond of the day");
+    check_components(Time::from_hms_milli(h, m, s, ms), h, m, s, ms * 1_000_000);
+}
+
+/// from_hms_micro(h, m, s, 0..10^6)
+#[kani::proof]
+#[kani::stub(std::fmt::format, crate::util::fmt_stub)]
+pub fn c17_time_from_hms_micro_components() {
+    let (h, m, s) = any_hms();
+    let us: i64 = kani::any();
+    kani::assume(us >= 0 && us < 1_000_000);
+    kani::cover!(h == 23 && m == 59 && s == 59 && us == 999_999, "last microsecond of the day");
+    check_components(Time::from_hms_micro(h, m, s, us), h, m, s, us * 1_000);
+}
+
+/// from_hms_nano(h, m, s, 0..10^9)
+#[kani::proof]
+#[kani::stub(std::fmt::format, crate::util::fmt_stub)]
+pub fn c17_time_from_hms_nano_components() {
+    let (h, m, s) = any_hms();
+    let ns: i64 = kani::any();
+    kani::assume(ns >= 0 && ns < NS);
+    kani::cover!(h == 23 && m == 59 && s == 59 && ns == NS - 1, "last nanosecond of the day");
+    check_components(Time::from_hms_nano(h, m, s, ns), h, m, s, ns);
+}
+
+/// from_num_seconds_from_midnight(0..86400, 0..10^9): components stated without a second divider
+/// (h*3600 + m*60 + s == secs with m, s < 60 determines them uniquely)
+#[kani::proof]
+#[kani::stub(std::fmt::format, crate::util::fmt_stub)]
+pub fn c17_time_from_secs_components() {
+    let secs: i64 = kani::any();
+    let ns: i64 = kani::any();
+    kani::assume(secs >= 0 && secs < 86_400);
+    kani::assume(ns >= 0 && ns < NS);
+    kani::cover!(secs == 86_399 && ns == NS - 1, "last nanosecond of the day");
+    let t = Time::from_num_seconds_from_midnight(secs, ns);
+    assert!(t.0 == secs * NS + ns, "nanoseconds since midnight");
+    let (h, m, s) = (t.hour() as i64, t.minute() as i64, t.second() as i64);
+    assert!(h < 24 && m < 60 && s < 60, "components in range");
+    assert!(h * 3600 + m * 60 + s == secs, "hour/minute/second decompose the second of the day");
+    assert!(t.nanosecond() as i64 == ns, "nanosecond() reports the sub-second component");
+    assert!(t.num_seconds_from_midnight() as i64 == secs, "num_seconds_from_midnight() reports the second of the day");
+}
+
+// ---------------------------------------------------------------------------------------------
+// Time <-> chrono::NaiveTime round trips
+// ---------------------------------------------------------------------------------------------
+
+/// Time -> NaiveTime -> Time is the identity on 0 .. 86400 s (every nanosecond)
+#[kani::proof]
+#[kani::stub(std::fmt::format, crate::util::fmt_stub)]
+pub fn c17_time_roundtrip_via_naive() {
+    let t = any_time_of_day();
+    kani::cover!(t.0 == DAY_NS - 1, "last nanosecond of the day");
+    kani::cover!(t.0 % NS != 0 && t.0 > NS, "sub-second part present");
+    match t.as_cr() {
+        Some(nt) => {
+            let back = Time::from_cr(&nt);
+            assert!(back.0 == t.0, "Time -> NaiveTime -> Time identity");
+        },
+        None => assert!(false, "a time of day inside 0..86400 s has a NaiveTime"),
+    }
+}
+
+/// NaiveTime -> Time -> NaiveTime is the identity for every non-leap NaiveTime
+#[kani::proof]
+#[kani::stub(std::fmt::format, crate::util::fmt_stub)]
+pub fn c17_naive_roundtrip_via_time() {
+    let secs: u32 = kani::any();
+    let frac: u32 = kani::any();
+    kani::assume(secs < 86_400 && frac < 1_000_000_000);
+    kani::cover!(secs == 86_399 && frac == 999_999_999, "last nanosecond of the day");
+    let nt = match NaiveTime::from_num_seconds_from_midnight_opt(secs, frac) {
+        Some(nt) => nt,
+        None => unreachable!(),
+    };
+    let t = Time::from_cr(&nt);
+    assert!(t.0 == secs as i64 * NS + frac as i64, "from_cr is nanoseconds since midnight");
+    match t.as_cr() {
+        Some(back) => assert!(back == nt, "NaiveTime -> Time -> NaiveTime identity"),
+        None => assert!(false, "from_cr result converts back"),
+    }
+}
+
+// ---------------------------------------------------------------------------------------------
+// Time ± month-free TimeDelta: exact nanosecond arithmetic
+// ---------------------------------------------------------------------------------------------
+// impl_ops.rs: `Time(self.0 ± rhs.inner.num_nanoseconds()?)` — plain i64 arithmetic: no wrap-around at
+// midnight, no saturation, no NaT for out-of-day results. The law is asserted for results inside the day
+// (the property's "times of day over the full 0..86400 s range"); out-of-day results are only witnessed.
+
+/// shift duration: |secs| <= 86400 (two days of span around any time of day), every sub-second part
+fn any_shift() -> (TimeDelta, i64) {
+    let secs: i64 = kani::any();
+    let nanos: u32 = kani::any();
+    kani::assume(secs >= -86_400 && secs <= 86_400);
+    kani::assume(nanos < 1_000_000_000);
+    let d = match Duration::new(secs, nanos) {
+        Some(d) => d,
+        None => unreachable!(),
+    };
+    (TimeDelta { months: 0, inner: d }, dur_ns(secs, nanos))
+}
+
+#[kani::proof]
+#[kani::stub(std::fmt::format, crate::util::fmt_stub)]
+pub fn c17_time_add_delta_exact() {
+    let t = any_time_of_day();
+    let (d, dn) = any_shift();
+    let exp = t.0 + dn;
+    let r = t + d;
+    kani::cover!(dn < 0 && dn % NS != 0 && exp >= 0 && exp < DAY_NS, "negative fractional shift inside the day");
+    kani::cover!(dn > 0 && exp >= 0 && exp < DAY_NS, "positive shift inside the day");
+    kani::cover!(exp >= DAY_NS, "result past midnight (not asserted)");
+    kani::cover!(exp < 0, "result before midnight (not asserted)");
+    if exp >= 0 && exp < DAY_NS {
+        assert!(r.0 == exp, "time + month-free duration is exact");
+    }
+}
+
+#[kani::proof]
+#[kani::stub(std::fmt::format, crate::util::fmt_stub)]
+pub fn c17_time_sub_delta_exact() {
+    let t = any_time_of_day();
+    let (d, dn) = any_shift();
+    let exp = t.0 - dn;
+    let r = t - d;
+    kani::cover!(dn < 0 && dn % NS != 0 && exp >= 0 && exp < DAY_NS, "negative fractional shift inside the day");
+    kani::cover!(dn > 0 && exp >= 0 && exp < DAY_NS, "positive shift inside the day");
+    kani::cover!(exp >= DAY_NS, "result past midnight (not asserted)");
+    kani::cover!(exp < 0, "result before midnight (not asserted)");
+    if exp >= 0 && exp < DAY_NS {
+        assert!(r.0 == exp, "time - month-free duration is exact");
+    }
+}
+
+/// (t + d) - d == t and (t - d) + d == t whenever the intermediate result is a time of day
+#[kani::proof]
+#[kani::stub(std::fmt::format, crate::util::fmt_stub)]
+pub fn c17_time_shift_inverse() {
+    let t = any_time_of_day();
+    let (d, dn) = any_shift();
+    kani::cover!(dn < 0 && t.0 + dn >= 0, "negative shift inside the day");
+    kani::cover!(dn > 0 && t.0 + dn < DAY_NS, "positive shift inside the day");
+    if t.0 + dn >= 0 && t.0 + dn < DAY_NS {
+        assert!(((t + d) - d).0 == t.0, "time + duration - duration is the original time");
+    }
+    if t.0 - dn >= 0 && t.0 - dn < DAY_NS {
+        assert!(((t - d) + d).0 == t.0, "time - duration + duration is the original time");
+    }
+}
+
+/// NaT time of day shifted by a valid month-free duration stays NaT (same defect as C16 c16_natop_time_*_lhs_nat;
+/// isolated here because the C17 quantifier names NaT operands).
+#[kani::proof]
+#[kani::stub(std::fmt::format, crate::util::fmt_stub)]
+pub fn c17_time_nat_shift_stays_nat() {
+    let (d, dn) = any_shift();
+    kani::cover!(dn > 0, "positive shift");
+    // a non-negative shift avoids the debug overflow panic of i64::MIN + negative: one failure cause per harness
+    kani::assume(dn >= 0);
+    assert!((Time::nat() + d).is_nat(), "NaT time + duration stays NaT");
+}
+
+// ---------------------------------------------------------------------------------------------
+// TimeDelta group laws (months: i32 added; inner: chrono::Duration normalised (secs, nanos))
+// ---------------------------------------------------------------------------------------------
+
+fn td_zero() -> TimeDelta {
+    TimeDelta { months: 0, inner: Duration::zero() }
+}
+
+fn td_eq(a: TimeDelta, b: TimeDelta) -> bool {
+    a.months == b.months && a.inner == b.inner
+}
+
+/// a + b - b == a, a - b + b == a, a - b == a + (-b)
+#[kani::proof]
+#[kani::stub(std::fmt::format, crate::util::fmt_stub)]
+pub fn c17_td_add_sub_inverse() {
+    let a = any_delta(TD_LIM);
+    let b = any_delta(TD_LIM);
+    kani::cover!(a.months != 0 && b.months < 0 && b.inner < Duration::zero() && b.inner.subsec_nanos() != 0,
+                 "month-carrying, negative fractional subtrahend");
+    kani::cover!(a.months == 0 && b.months == 0, "month-free operands");
+    assert!(td_eq(a + b - b, a), "a + b - b == a");
+    assert!(td_eq(a - b + b, a), "a - b + b == a");
+    assert!(td_eq(a - b, a + (-b)), "a - b == a + (-b)");
+    assert!((a + b).is_not_nat() && (a - b).is_not_nat(), "valid operands give a valid duration");
+}
+
+/// a + (-a) == 0, -(-a) == a, a + 0 == a, 0 + a == a, a - a == 0
+#[kani::proof]
+#[kani::stub(std::fmt::format, crate::util::fmt_stub)]
+pub fn c17_td_neg_identity() {
+    let a = any_delta(TD_LIM);
+    kani::cover!(a.months < 0 && a.inner > Duration::zero() && a.inner.subsec_nanos() != 0, "mixed signs, fractional");
+    kani::cover!(a.months == 0 && a.inner < Duration::zero(), "month-free negative");
+    assert!(td_eq(a + (-a), td_zero()), "a + (-a) == zero");
+    assert!(td_eq((-a) + a, td_zero()), "(-a) + a == zero");
+    assert!(td_eq(-(-a), a), "-(-a) == a");
+    assert!(td_eq(a + td_zero(), a), "a + zero == a");
+    assert!(td_eq(td_zero() + a, a), "zero + a == a");
+    assert!(td_eq(a - a, td_zero()), "a - a == zero");
+    assert!((-a).is_not_nat(), "negation of a valid duration is valid");
+}
+
+/// (a + b) + c == a + (b + c), a + b == b + a
+#[kani::proof]
+#[kani::stub(std::fmt::format, crate::util::fmt_stub)]
+pub fn c17_td_add_assoc_comm() {
+    let a = any_delta(TD_LIM);
+    let b = any_delta(TD_LIM);
+    let c = any_delta(TD_LIM);
+    kani::cover!(a.months > 0 && b.months < 0 && c.months != 0, "month-carrying operands");
+    kani::cover!(a.inner.subsec_nanos() > 600_000_000 && b.inner.subsec_nanos() > 600_000_000
+                 && c.inner.subsec_nanos() > 600_000_000 && a.inner > Duration::zero()
+                 && b.inner > Duration::zero() && c.inner > Duration::zero(), "two sub-second carries");
+    assert!(td_eq((a + b) + c, a + (b + c)), "(a + b) + c == a + (b + c)");
+    assert!(td_eq(a + b, b + a), "a + b == b + a");
+}
+
+// integer scaling. chrono's `Duration * i32` multiplies secs in i128 and normalises nanos * k with one
+// div_euclid/rem_euclid by 10^9; operands are restricted (stated in the evidence) because 64/128-bit symbolic
+// multiplications and dividers are what the SAT back end is slow on.
+#[cfg(not(feature = "thorough"))]
+const MUL_LIM: i64 = 1 << 20;
+#[cfg(feature = "thorough")]
+const MUL_LIM: i64 = 1 << 30;
+
+/// a * k has k * months and k * (total nanoseconds), in chrono's normal form — stated with multiplications only
+/// (no second divider): the normal form (secs, 0 <= nanos < 10^9) of a nanosecond count is unique.
+#[kani::proof]
+#[kani::stub(std::fmt::format, crate::util::fmt_stub)]
+pub fn c17_td_mul_value() {
+    let months: i32 = kani::any();
+    let secs: i64 = kani::any();
+    let nanos: u32 = kani::any();
+    let k: i32 = kani::any();
+    kani::assume(months >= -1200 && months <= 1200);
+    kani::assume(secs >= -MUL_LIM && secs <= MUL_LIM);
+    kani::assume(nanos < 1_000_000_000);
+    kani::assume(k >= -8 && k <= 8);
+    let a = TimeDelta {
+        months,
+        inner: match Duration::new(secs, nanos) {
+            Some(d) => d,
+            None => unreachable!(),
+        },
+    };
+    let r = a * k;
+    assert!(r.months == months * k, "months scale");
+    let total = dur_ns(secs, nanos) * k as i64;
+    // oracle in multiplication form: a solver-chosen witness (es, en) of the unique normal form of `total`
+    let es: i64 = kani::any();
+    let en: u32 = kani::any();
+    kani::assume(es >= -16 * MUL_LIM && es <= 16 * MUL_LIM && en < 1_000_000_000);
+    kani::assume(es * NS + en as i64 == total);
+    let expect = match Duration::new(es, en) {
+        Some(d) => d,
+        None => unreachable!(),
+    };
+    // witnesses placed after the oracle's assumption: they also show that the witness exists
+    kani::cover!(k < -1 && secs > 0 && nanos > 500_000_000, "negative factor, fractional operand");
+    kani::cover!(k > 1 && secs < 0 && nanos > 500_000_000, "positive factor, negative fractional operand");
+    assert!(r.inner == expect, "duration scales exactly, result in chrono's normal form");
+}
+
+/// (a + b) * k == a * k + b * k for |k| <= 8, and the unit/zero/minus-one factors
+#[kani::proof]
+#[kani::stub(std::fmt::format, crate::util::fmt_stub)]
+pub fn c17_td_mul_distributes() {
+    let a = any_delta(MUL_LIM);
+    let b = any_delta(MUL_LIM);
+    let k: i32 = kani::any();
+    kani::assume(k >= -8 && k <= 8);
+    kani::cover!(k < -1 && a.months != 0 && b.inner.subsec_nanos() != 0, "negative factor");
+    kani::cover!(k > 1 && a.inner < Duration::zero() && b.inner > Duration::zero(), "positive factor, mixed signs");
+    assert!(td_eq((a + b) * k, a * k + b * k), "(a + b) * k == a * k + b * k");
+}
+
+/// a * 1 == a, a * 0 == zero, a * -1 == -a, a * 2 == a + a
+#[kani::proof]
+#[kani::stub(std::fmt::format, crate::util::fmt_stub)]
+pub fn c17_td_mul_units() {
+    let a = any_delta(MUL_LIM);
+    kani::cover!(a.months != 0 && a.inner < Duration::zero() && a.inner.subsec_nanos() != 0, "negative fractional");
+    assert!(td_eq(a * 1, a), "a * 1 == a");
+    assert!(td_eq(a * 0, td_zero()), "a * 0 == zero");
+    assert!(td_eq(a * -1, -a), "a * -1 == -a");
+    assert!(td_eq(a * 2, a + a), "a * 2 == a + a");
+}
+
+// ---- scratch (to be removed) ----
+fn x_rt(lo: i64, hi: i64) {
+    let v: i64 = kani::any();
+    kani::assume(v >= lo && v < hi);
+    let t = Time(v);
+    match t.as_cr() {
+        Some(nt) => {
+            let back = Time::from_cr(&nt);
+            assert!(back.0 == t.0, "Time -> NaiveTime -> Time identity");
+        },
+        None => assert!(false, "a time of day inside 0..86400 s has a NaiveTime"),
+    }
+}
+#[kani::proof]
+pub fn c17_x_rt12() { x_rt(0, 4096 * NS) }
+#[kani::proof]
+#[kani::solver(kissat)]
+pub fn c17_x_rt12k() { x_rt(0, 4096 * NS) }
+#[kani::proof]
+pub fn c17_x_rt14() { x_rt(0, 16384 * NS) }
+#[kani::proof]
+#[kani::solver(kissat)]
+pub fn c17_x_rt17k() { x_rt(0, DAY_NS) }
+#[kani::proof]
+#[kani::solver(minisat)]
+pub fn c17_x_rt17m() { x_rt(0, DAY_NS) }
+#[kani::proof]
+pub fn c17_x_rt12hi() { x_rt(82000 * NS, DAY_NS) }
